@@ -19,6 +19,7 @@ import (
 	"github.com/comdex-official/comdex/x/auctionsV2"
 	auctionsV2types "github.com/comdex-official/comdex/x/auctionsV2/types"
 	collectortypes "github.com/comdex-official/comdex/x/collector/types"
+	esmtypes "github.com/comdex-official/comdex/x/esm/types"
 	lendtypes "github.com/comdex-official/comdex/x/lend/types"
 	liqV2types "github.com/comdex-official/comdex/x/liquidationsV2/types"
 	markettypes "github.com/comdex-official/comdex/x/market/types"
@@ -170,9 +171,12 @@ func c10newFix(t *testing.T) *c10fix {
 }
 
 // the named accounts whose balances are printed after every op (order is the protocol)
-var c10names = []string{"b1", "b2", "b3", "b4", "auction", "collector", "owner", "keeper", "initiator", "reserve", "vault", "pool"}
+var c10names = []string{"b1", "b2", "b3", "b4", "auction", "collector", "owner", "keeper", "initiator", "reserve", "vault", "pool", "lendres", "poolin", "esm"}
 
 type c10seq struct {
+	poolMod   string // lend: module account of the debt pool
+	poolInMod string // lend, cross-pool borrow: module account of the pool the collateral was lent to
+	transit   string // lend, cross-pool borrow: denom of the bridge asset
 	f     *c10fix
 	ctx   sdk.Context
 	tr    *Trace
@@ -196,7 +200,20 @@ func (s *c10seq) acct(name string) sdk.AccAddress {
 		return s.f.app.AccountKeeper.GetModuleAddress(vaulttypes.ModuleName)
 	case "pool":
 		if s.f.lend {
+			if s.poolMod != "" {
+				return s.f.app.AccountKeeper.GetModuleAddress(s.poolMod)
+			}
 			return s.f.app.AccountKeeper.GetModuleAddress(s.f.poolMod)
+		}
+	case "esm":
+		return s.f.app.AccountKeeper.GetModuleAddress(esmtypes.ModuleName)
+	case "lendres":
+		if s.f.lend {
+			return s.f.app.AccountKeeper.GetModuleAddress(lendtypes.ModuleName)
+		}
+	case "poolin":
+		if s.f.lend && s.poolInMod != "" {
+			return s.f.app.AccountKeeper.GetModuleAddress(s.poolInMod)
 		}
 	case "owner":
 		if s.f.lend {
@@ -212,13 +229,6 @@ func (s *c10seq) balances() string {
 		a := s.acct(n)
 		c := s.f.app.BankKeeper.GetBalance(s.ctx, a, s.p.coll.denom).Amount
 		d := s.f.app.BankKeeper.GetBalance(s.ctx, a, s.p.debt.denom).Amount
-		if n == "pool" && s.f.lend {
-			// the lending side as a whole: pool account + the lend module's reserve account (the split of the returned
-			// target between pool and reserve is lend-internal bookkeeping, liquidate.go:739-790)
-			r := s.f.app.AccountKeeper.GetModuleAddress(lendtypes.ModuleName)
-			c = c.Add(s.f.app.BankKeeper.GetBalance(s.ctx, r, s.p.coll.denom).Amount)
-			d = d.Add(s.f.app.BankKeeper.GetBalance(s.ctx, r, s.p.debt.denom).Amount)
-		}
 		sb = append(sb, n+":"+c.String()+":"+d.String())
 	}
 	return strings.Join(sb, ",")
@@ -251,7 +261,11 @@ func (s *c10seq) state() string {
 	}
 	supply := s.f.app.BankKeeper.GetSupply(s.ctx, s.p.debt.denom).Amount.String()
 	_, lvFound := s.f.app.NewliqKeeper.GetLockedVault(s.ctx, s.f.appID, s.lvID)
-	return rec + "\t" + s.balances() + "\t" + fmt.Sprintf("net=%s;ext=%s;res=%s;supply=%s;lv=%v;minted=%s", net, ext, res, supply, lvFound, minted)
+	tr := "0:0"
+	if s.transit != "" {
+		tr = s.f.app.BankKeeper.GetBalance(s.ctx, s.acct("pool"), s.transit).Amount.String() + ":" + s.f.app.BankKeeper.GetBalance(s.ctx, s.acct("poolin"), s.transit).Amount.String()
+	}
+	return rec + "\t" + s.balances() + "\t" + fmt.Sprintf("net=%s;ext=%s;res=%s;supply=%s;tr=%s;lv=%v;minted=%s", net, ext, res, supply, tr, lvFound, minted)
 }
 
 // all limit bids of this (debt, collateral) pair in the store's iteration order, grouped by premium
@@ -358,7 +372,10 @@ func c10newLendFix(t *testing.T) *c10fix {
 	deliver(lendtypes.NewMsgFundModuleAccounts(2, a4, u1.String(), sdk.NewCoin("uasset4", sdk.NewInt(10000000000))))
 	deliver(lendtypes.NewMsgBorrow(u1.String(), 1, 1, false, sdk.NewCoin("ucasset1", sdk.NewInt(100000000)), sdk.NewCoin("uasset2", sdk.NewInt(70000000))))
 	deliver(lendtypes.NewMsgBorrow(u2.String(), 3, 1, false, sdk.NewCoin("ucasset1", sdk.NewInt(1000000000)), sdk.NewCoin("uasset2", sdk.NewInt(700000000))))
-	f.pairs = []c10pair{{coll: c10asset{a1, "uasset1", 1000000}, debt: c10asset{a2, "uasset2", 1000000}, extID: 0, cmst: false}}
+	// borrow 3: cross-pool (pair 13: collateral uasset2 lent to pool 1, debt uasset4 from pool 2, bridged over a transit asset)
+	deliver(lendtypes.NewMsgBorrow(u1.String(), 2, 13, false, sdk.NewCoin("ucasset2", sdk.NewInt(100000000)), sdk.NewCoin("uasset4", sdk.NewInt(30000000))))
+	f.pairs = []c10pair{{coll: c10asset{a1, "uasset1", 1000000}, debt: c10asset{a2, "uasset2", 1000000}, extID: 0, cmst: false},
+		{coll: c10asset{a2, "uasset2", 1000000}, debt: c10asset{a4, "uasset4", 1000000}, extID: 0, cmst: false}}
 	return f
 }
 
@@ -437,10 +454,15 @@ func c10start(t *testing.T, f *c10fix, tr *Trace, cfg c10cfg) *c10seq {
 		} else if err := app.NewliqKeeper.Liquidate(ctx); err != nil {
 			return fail("liquidate")
 		}
-	case "lend", "lendkeeper":
-		// advance a little so that interest accrues, then drop the collateral price and liquidate the first borrow
+	case "lend", "lendkeeper", "lendcross":
 		c10setTwa(app, ctx, s.p.coll.id, cfg.dropTo, true)
-		if cfg.kind == "lendkeeper" {
+		if cfg.kind == "lendcross" {
+			// borrow 3 of the fixture: collateral lent to pool 1, debt borrowed from pool 2 over a bridge asset
+			ok, _ := c10deliver(app, ctx, liqV2types.NewMsgLiquidateInternalKeeperRequest(c10addr("keeper"), 1, 3))
+			if !ok {
+				return fail("keeper-liquidate-cross-borrow")
+			}
+		} else if cfg.kind == "lendkeeper" {
 			ok, _ := c10deliver(app, ctx, liqV2types.NewMsgLiquidateInternalKeeperRequest(c10addr("keeper"), 1, 1))
 			if !ok {
 				return fail("keeper-liquidate-borrow")
@@ -466,6 +488,31 @@ func c10start(t *testing.T, f *c10fix, tr *Trace, cfg c10cfg) *c10seq {
 	if !found {
 		return fail("no-locked-vault")
 	}
+	lendExtra := ""
+	if lv.InitiatorType == "lend" {
+		// what the lend module will do with the target at close (liquidate.go:721-813): external values for the model
+		bp, _ := app.LendKeeper.GetBorrow(ctx, lv.OriginalVaultId)
+		lp, _ := app.LendKeeper.GetLendPair(ctx, bp.PairID)
+		inStats, _ := app.LendKeeper.GetAssetRatesParams(ctx, lp.AssetIn)
+		pen := inStats.LiquidationPenalty
+		if lp.IsEModeEnabled {
+			pen = inStats.ELiquidationPenalty
+		}
+		lendPen := sdk.NewDecFromInt(bp.AmountOut.Amount).Mul(pen).TruncateInt()
+		lendInt := sdk.ZeroInt()
+		if trk, found := app.LendKeeper.GetBorrowInterestTracker(ctx, lv.OriginalVaultId); found {
+			lendInt = trk.ReservePoolInterest.TruncateInt()
+		}
+		outPool, _ := app.LendKeeper.GetPool(ctx, lp.AssetOutPoolID)
+		s.poolMod = outPool.ModuleName
+		if bp.BridgedAssetAmount.Amount.IsPositive() {
+			lnd, _ := app.LendKeeper.GetLend(ctx, bp.LendingID)
+			inPool, _ := app.LendKeeper.GetPool(ctx, lnd.PoolID)
+			s.poolInMod = inPool.ModuleName
+			s.transit = bp.BridgedAssetAmount.Denom
+		}
+		lendExtra = fmt.Sprintf(";lendPen=%s;lendInt=%s;bridged=%s", lendPen, lendInt, bp.BridgedAssetAmount.Amount)
+	}
 	isK := "0"
 	if lv.IsInternalKeeper {
 		isK = "1"
@@ -476,7 +523,7 @@ func c10start(t *testing.T, f *c10fix, tr *Trace, cfg c10cfg) *c10seq {
 	}
 	tr.Line("dutch.begin", fmt.Sprintf("kind=%s;decC=%d;decD=%d;target=%s;fee=%s;bonus0=%s;coll0=%s;keeper=%s;incentive=%s;minUsd=%d;T=%d;premium=%s;discount=%s;cmst=%s;twaC=%d",
 		lv.InitiatorType, s.p.coll.dec, s.p.debt.dec, lv.TargetDebt.Amount, lv.FeeToBeCollected, lv.BonusToBeGiven, lv.CollateralToken.Amount, isK, c10raw(c10dec(cfg.incentive)),
-		cfg.minUsd, cfg.T, c10raw(c10dec(cfg.premium)), c10raw(c10dec(cfg.discount)), cm, cfg.dropTo), s.state())
+		cfg.minUsd, cfg.T, c10raw(c10dec(cfg.premium)), c10raw(c10dec(cfg.discount)), cm, cfg.dropTo)+lendExtra, s.state())
 	tr.Count("begin:" + cfg.kind)
 	return s
 }
@@ -1145,6 +1192,12 @@ func (s *c10seq1) tick1(dt time.Duration) {
 	tc, ac := s.collTwa()
 	td, ad := s.debtTwa()
 	app := s.f.app
+	esmOn := false
+	if st, found := app.EsmKeeper.GetESMStatus(s.ctx, s.f.appID); found {
+		esmOn = st.Status
+	}
+	_, snap := app.EsmKeeper.GetSnapshotOfPrices(s.ctx, s.f.appID, s.p.coll.id)
+	_, wasOpen := s.auction1()
 	panicked, _ := try(func() { auctionv1.BeginBlocker(s.ctx, app.AuctionKeeper, app.AssetKeeper, app.CollectorKeeper, app.EsmKeeper) })
 	cl := "ok"
 	if panicked {
@@ -1157,7 +1210,22 @@ func (s *c10seq1) tick1(dt time.Duration) {
 		return "0"
 	}
 	s.tr.Count("tick1:" + cl)
-	s.tr.Line("dutch.v1.tick", i64(s.now.Unix()), u(tc), b(ac), u(td), b(ad), cl, s.state1())
+	if esmOn && wasOpen {
+		if _, open := s.auction1(); !open {
+			s.tr.Count("tick1:esm-wind-down")
+		}
+	}
+	s.tr.Line("dutch.v1.tick", i64(s.now.Unix()), u(tc), b(ac), u(td), b(ad), b(esmOn), b(snap), cl, s.state1())
+}
+
+// esmOn1 switches the app's emergency shutdown on (the way x/esm does when it executes: status record + price snapshot)
+func (s *c10seq1) esmOn1(withSnapshot bool) {
+	s.f.app.EsmKeeper.SetESMStatus(s.ctx, esmtypes.ESMStatus{AppId: s.f.appID, Executor: c10addr("keeper").String(), Status: true, StartTime: s.now, EndTime: s.now.Add(time.Hour)})
+	if withSnapshot {
+		tc, _ := s.collTwa()
+		s.f.app.EsmKeeper.SetSnapshotOfPrices(s.ctx, s.f.appID, s.p.coll.id, tc)
+	}
+	s.tr.Count("esm-on")
 }
 
 func c10genCfg1(f *c10fix, rng *Rng) c10cfg1 {
@@ -1284,7 +1352,271 @@ func (s *c10seq1) randomOps1(rng *Rng, cfg c10cfg1) {
 				}
 				s.setDebt(nt, !rng.Chance(15))
 			}
+			if rng.Chance(12) {
+				s.esmOn1(!rng.Chance(20))
+			}
 			s.tick1(time.Duration(dt) * time.Second)
+		}
+	}
+}
+
+// ---------------------------------------------------------------------------------------------
+// first generation, liquidated borrows (x/auction/keeper/dutch_lend.go + x/liquidation/keeper/liquidate_borrow.go)
+// ---------------------------------------------------------------------------------------------
+
+type c10seqL struct {
+	*c10seq
+	mapID uint64
+}
+
+func (s *c10seqL) auctionL() (auctiontypes.DutchAuction, bool) {
+	a, err := s.f.app.AuctionKeeper.GetDutchLendAuction(s.ctx, s.f.appID, s.mapID, s.aucID)
+	return a, err == nil
+}
+
+func (s *c10seqL) lendResDebt() sdk.Int {
+	r := s.f.app.AccountKeeper.GetModuleAddress(lendtypes.ModuleName)
+	return s.f.app.BankKeeper.GetBalance(s.ctx, r, s.p.debt.denom).Amount
+}
+
+func (s *c10seqL) stateL() string {
+	rec := "closed"
+	if a, ok := s.auctionL(); ok {
+		rec = fmt.Sprintf("out=%s;in=%s;price=%s;init=%s;endp=%s;inp=%s;start=%d;end=%d", a.OutflowTokenCurrentAmount.Amount, a.InflowTokenCurrentAmount.Amount,
+			c10raw(a.OutflowTokenCurrentPrice), c10raw(a.OutflowTokenInitialPrice), c10raw(a.OutflowTokenEndPrice), c10raw(a.InflowTokenCurrentPrice), a.StartTime.Unix(), a.EndTime.Unix())
+	}
+	var sb []string
+	for _, n := range c10names {
+		a := s.acct(n)
+		if n == "auction" {
+			a = s.f.app.AccountKeeper.GetModuleAddress(auctiontypes.ModuleName)
+		}
+		c := s.f.app.BankKeeper.GetBalance(s.ctx, a, s.p.coll.denom).Amount
+		d := s.f.app.BankKeeper.GetBalance(s.ctx, a, s.p.debt.denom).Amount
+		if n == "pool" {
+			r := s.f.app.AccountKeeper.GetModuleAddress(lendtypes.ModuleName)
+			c = c.Add(s.f.app.BankKeeper.GetBalance(s.ctx, r, s.p.coll.denom).Amount)
+			d = d.Add(s.f.app.BankKeeper.GetBalance(s.ctx, r, s.p.debt.denom).Amount)
+		}
+		if n == "lendres" || n == "poolin" {
+			c, d = sdk.ZeroInt(), sdk.ZeroInt() // folded into "pool" for this generation
+		}
+		sb = append(sb, n+":"+c.String()+":"+d.String())
+	}
+	return rec + "\t" + strings.Join(sb, ",") + "\t" + fmt.Sprintf("next=%d", s.f.app.AuctionKeeper.GetLendAuctionID(s.ctx))
+}
+
+type c10cfgL struct {
+	dropTo uint64
+	T      uint64
+	buffer string
+	cusp   string
+	sweep  bool // after the keeper message for borrow 1 the sweep seizes borrow 2 as well (a second auction shares the module account)
+	resFund int64 // debt-denom funds of the lend reserve (lend module account): pays when the collateral is sold out below the target
+}
+
+func c10startL(t *testing.T, f *c10fix, tr *Trace, cfg c10cfgL) *c10seqL {
+	ctx, _ := f.base.CacheContext()
+	s := &c10seqL{c10seq: &c10seq{f: f, ctx: ctx, tr: tr, p: f.pairs[0], kind: "l1", now: f.t0, h: 10}, mapID: 3}
+	app := f.app
+	fail := func(why string) *c10seqL {
+		tr.Count("setupL:" + why)
+		return nil
+	}
+	if err := app.LendKeeper.AddAuctionParamsData(ctx, lendtypes.AuctionParams{AppId: f.appID, AuctionDurationSeconds: cfg.T, Buffer: c10dec(cfg.buffer), Cusp: c10dec(cfg.cusp),
+		Step: sdk.NewInt(1), PriceFunctionType: 1, DutchId: 3, BidDurationSeconds: 3600}); err != nil {
+		return fail("auction-params")
+	}
+	big := sdk.NewIntFromUint64(math.MaxInt64 / 4)
+	for _, n := range []string{"b1", "b2", "b4"} {
+		c10fund(t, app, ctx, c10addr(n), s.p.debt.denom, big)
+	}
+	c10fund(t, app, ctx, c10addr("b3"), s.p.debt.denom, sdk.NewInt(20000005))
+	if cfg.resFund > 0 {
+		c := sdk.NewCoins(sdk.NewCoin(s.p.debt.denom, sdk.NewInt(cfg.resFund)))
+		if err := app.BankKeeper.MintCoins(ctx, auctionsV2types.ModuleName, c); err != nil {
+			t.Fatal(err)
+		}
+		if err := app.BankKeeper.SendCoinsFromModuleToModule(ctx, auctionsV2types.ModuleName, lendtypes.ModuleName, c); err != nil {
+			t.Fatal(err)
+		}
+	}
+	c10setTwa(app, ctx, s.p.coll.id, cfg.dropTo, true)
+	mod := app.AccountKeeper.GetModuleAddress(auctiontypes.ModuleName)
+	before := app.BankKeeper.GetBalance(ctx, mod, s.p.coll.denom).Amount
+	idBefore := app.AuctionKeeper.GetLendAuctionID(ctx)
+	if ok, _ := c10deliver(app, ctx, &liquidationtypes.MsgLiquidateBorrowRequest{From: c10addr("keeper").String(), BorrowId: 1}); !ok {
+		return fail("liquidate-borrow-msg")
+	}
+	deposit := app.BankKeeper.GetBalance(ctx, mod, s.p.coll.denom).Amount.Sub(before)
+	s.aucID = idBefore + 1
+	a, ok := s.auctionL()
+	if !ok {
+		return fail("no-auction")
+	}
+	if cfg.sweep {
+		if err := app.LiquidationKeeper.LiquidateBorrows(ctx); err != nil {
+			return fail("sweep")
+		}
+	}
+	rates, _ := app.LendKeeper.GetAssetRatesParams(ctx, s.p.coll.id)
+	lv, _ := app.LiquidationKeeper.GetLockedVault(ctx, f.appID, a.LockedVaultId)
+	pair, _ := app.LendKeeper.GetLendPair(ctx, lv.ExtendedPairId)
+	tr.Line("dutch.l1.begin", fmt.Sprintf("decC=%d;decD=%d;target=%s;coll0=%s;deposit=%s;bonus=%s;dust=%d;T=%d;buffer=%s;cusp=%s;twaC=%d",
+		s.p.coll.dec, s.p.debt.dec, a.InflowTokenTargetAmount.Amount, a.OutflowTokenInitAmount.Amount, deposit, c10raw(rates.LiquidationBonus), pair.MinUsdValueLeft, cfg.T,
+		c10raw(c10dec(cfg.buffer)), c10raw(c10dec(cfg.cusp)), cfg.dropTo), s.stateL())
+	tr.Count("begin:l1")
+	return s
+}
+
+func (s *c10seqL) bidL(who string, amt sdk.Int) {
+	res := s.lendResDebt()
+	ok, cl := c10deliver(s.f.app, s.ctx, &auctiontypes.MsgPlaceDutchLendBidRequest{Bidder: c10addr(who).String(), AuctionId: s.aucID, Amount: sdk.Coin{Denom: s.p.coll.denom, Amount: amt},
+		AppId: s.f.appID, AuctionMappingId: s.mapID})
+	s.tr.Count("bidL:" + cl)
+	if ok {
+		if _, open := s.auctionL(); !open {
+			s.tr.Count("closeL")
+			if s.lendResDebt().LT(res) {
+				s.tr.Count("closeL:reserve-covers-sold-out")
+			}
+			if s.f.app.AuctionKeeper.GetLendAuctionID(s.ctx) > s.aucID+1 || (s.f.app.AuctionKeeper.GetLendAuctionID(s.ctx) > s.aucID && s.kind == "l1") {
+				s.tr.Count("closeL:maybe-reliquidated")
+			}
+		} else {
+			s.tr.Count("partial-fillL")
+		}
+	}
+	s.tr.Line("dutch.l1.bid", who, amt.String(), res.String(), cl, s.stateL())
+}
+
+func (s *c10seqL) tickL(dt time.Duration) {
+	s.now = s.now.Add(dt)
+	s.h++
+	s.ctx = s.ctx.WithBlockTime(s.now).WithBlockHeight(s.h)
+	tc, ac := s.collTwa()
+	td, ad := s.debtTwa()
+	app := s.f.app
+	panicked, _ := try(func() { auctionv1.BeginBlocker(s.ctx, app.AuctionKeeper, app.AssetKeeper, app.CollectorKeeper, app.EsmKeeper) })
+	cl := "ok"
+	if panicked {
+		cl = "panic"
+	}
+	b := func(x bool) string {
+		if x {
+			return "1"
+		}
+		return "0"
+	}
+	s.tr.Count("tickL:" + cl)
+	s.tr.Line("dutch.l1.tick", i64(s.now.Unix()), u(tc), b(ac), u(td), b(ad), cl, s.stateL())
+}
+
+func (s *c10seqL) randomOpsL(rng *Rng, cfg c10cfgL) {
+	bidders := []string{"b1", "b2", "b3", "b4"}
+	nops := 3 + rng.Intn(12)
+	for o := 0; o < nops; o++ {
+		a, open := s.auctionL()
+		if !open {
+			if rng.Chance(50) {
+				s.bidL(bidders[rng.Intn(4)], sdk.NewInt(int64(1+rng.Intn(1000000))))
+			} else {
+				s.tickL(time.Duration(1+rng.Intn(int(cfg.T)+5)) * time.Second)
+			}
+			if rng.Chance(60) {
+				return
+			}
+			continue
+		}
+		if rng.Intn(100) < 68 {
+			C := a.OutflowTokenCurrentAmount.Amount
+			tab := a.InflowTokenTargetAmount.Amount.Sub(a.InflowTokenCurrentAmount.Amount)
+			collFor := func(x sdk.Int) sdk.Int {
+				den := a.OutflowTokenCurrentPrice.MulInt64(s.p.debt.dec)
+				if !den.IsPositive() {
+					return C
+				}
+				return a.InflowTokenCurrentPrice.MulInt(x).MulInt64(s.p.coll.dec).Quo(den).TruncateInt()
+			}
+			var amt sdk.Int
+			switch rng.Intn(14) {
+			case 0:
+				amt = sdk.NewInt(int64(1 + rng.Intn(3)))
+				s.tr.Count("bidkindL:tiny")
+			case 1, 2:
+				amt = C
+				s.tr.Count("bidkindL:all")
+			case 3:
+				amt = C.AddRaw(1)
+				s.tr.Count("bidkindL:over")
+			case 4, 5:
+				amt = collFor(tab).AddRaw(int64(rng.Intn(5)) - 2)
+				s.tr.Count("bidkindL:target-edge")
+			case 6:
+				amt = collFor(tab).MulRaw(2)
+				s.tr.Count("bidkindL:over-target")
+			case 7:
+				du := sdk.NewDec(1000000).MulInt64(s.p.debt.dec).Quo(a.InflowTokenCurrentPrice).TruncateInt()
+				amt = collFor(tab.Sub(du)).AddRaw(int64(rng.Intn(5)) - 2)
+				s.tr.Count("bidkindL:debt-dust-edge")
+			case 8:
+				if a.OutflowTokenCurrentPrice.IsPositive() {
+					cu := sdk.NewDec(1000000).MulInt64(s.p.debt.dec).Quo(a.OutflowTokenCurrentPrice).TruncateInt()
+					amt = C.Sub(cu).AddRaw(int64(rng.Intn(5)) - 2)
+				} else {
+					amt = C
+				}
+				s.tr.Count("bidkindL:coll-dust-edge")
+			case 9:
+				amt = sdk.NewInt(-5)
+				s.tr.Count("bidkindL:negative")
+			default:
+				amt = C.MulRaw(int64(1 + rng.Intn(95))).QuoRaw(100)
+				s.tr.Count("bidkindL:partial")
+			}
+			s.bidL(bidders[rng.Intn(4)], amt)
+		} else {
+			el := int64(s.now.Sub(a.StartTime) / time.Second)
+			T := int64(cfg.T)
+			var dt int64
+			switch rng.Intn(8) {
+			case 0:
+				dt = 1
+			case 1:
+				dt = T - el
+			case 2:
+				dt = T - el - 1
+			case 3:
+				dt = T - el + 1
+				s.tr.Count("tickkindL:restart")
+			case 4:
+				dt = T/3 + 1
+			case 5:
+				dt = T + 1 + int64(rng.Intn(100))
+				s.tr.Count("tickkindL:restart")
+			default:
+				dt = 1 + int64(rng.Intn(int(T)+1))
+			}
+			if dt < 1 {
+				dt = 1
+			}
+			if rng.Chance(25) {
+				tc, _ := s.collTwa()
+				nt := tc * uint64(70+rng.Intn(41)) / 100
+				if nt == 0 {
+					nt = 1
+				}
+				s.setColl(nt, !rng.Chance(15))
+			}
+			if rng.Chance(20) {
+				td, _ := s.debtTwa()
+				nt := td * uint64(90+rng.Intn(21)) / 100
+				if nt == 0 {
+					nt = 1
+				}
+				s.setDebt(nt, !rng.Chance(15))
+			}
+			s.tickL(time.Duration(dt) * time.Second)
 		}
 	}
 }
@@ -1368,13 +1700,24 @@ func TestC10(t *testing.T) {
 	s.bid("b1", sdk.NewInt(53000000))
 	s.tick(20 * time.Minute)
 	s.bid("b2", sdk.NewInt(100000000))
+	lcfg.kind, lcfg.pair, lcfg.amountOut, lcfg.dropTo = "lendcross", 1, sdk.NewInt(30000000), 1400000
+	if s = c10start(t, fl, tr, lcfg); s != nil {
+		s.bid("b1", sdk.NewInt(10000000))
+		s.tick(20 * time.Minute)
+		s.bid("b2", sdk.NewInt(100000000))
+	}
 	nl := scale(80, 3000)
 	for i := 0; i < nl; i++ {
 		cfg := c10genCfg(f, rng)
 		cfg.pair = 0
-		cfg.kind = []string{"lend", "lendkeeper"}[rng.Intn(2)]
+		cfg.kind = []string{"lend", "lendkeeper", "lendcross"}[rng.Intn(3)]
 		cfg.amountIn, cfg.amountOut = sdk.NewInt(100000000), sdk.NewInt(70000000)
 		cfg.dropTo = []uint64{1860000, 1800000, 1700000, 1500000, 1200000, 900000, 400000}[rng.Intn(7)]
+		if cfg.kind == "lendcross" {
+			cfg.pair = 1
+			cfg.amountOut = sdk.NewInt(30000000)
+			cfg.dropTo = []uint64{1500000, 1400000, 1200000, 1000000, 700000, 300000}[rng.Intn(6)]
+		}
 		if cfg.reserve > 1000 {
 			cfg.reserve = 200000000
 		}
@@ -1396,6 +1739,21 @@ func TestC10(t *testing.T) {
 	s1 = c10start1(t, f, tr, c1)
 	s1.tick1(250 * time.Second)
 	s1.bid1("b1", sdk.NewInt(1000000)) // collateral sold out below the target: the collector covers the rest
+	// emergency-shutdown wind-down, both branches: less than the principal collected / at least the principal collected
+	c1 = c10cfg1{pair: 0, amountIn: sdk.NewInt(100000000), amountOut: sdk.NewInt(100000000), dropTo: 1400000, T: 300, buffer: "1.2", cusp: "0.6", collector: 0}
+	if s1 = c10start1(t, f, tr, c1); s1 != nil {
+		s1.tick1(100 * time.Second)
+		s1.bid1("b1", sdk.NewInt(20000000))
+		s1.esmOn1(true)
+		s1.tick1(100 * time.Second) // window not over: price update only
+		s1.tick1(150 * time.Second) // window over, ESM on: collateral back to the vault module, collected debt burned
+	}
+	if s1 = c10start1(t, f, tr, c1); s1 != nil {
+		s1.tick1(100 * time.Second)
+		s1.bid1("b1", sdk.NewInt(72000000))
+		s1.esmOn1(true)
+		s1.tick1(250 * time.Second) // collected ≥ principal: principal burned, excess to the collector, collateral to the ESM module
+	}
 	// D8 on a live first-generation auction: block time exactly at EndTime, window 10 s
 	c1 = c10cfg1{pair: 0, amountIn: sdk.NewInt(1000000), amountOut: sdk.NewInt(1000000), dropTo: 1400000, T: 10, buffer: "1.2", cusp: "0.7", collector: 0}
 	s1 = c10start1(t, f, tr, c1)
@@ -1410,6 +1768,29 @@ func TestC10(t *testing.T) {
 			continue
 		}
 		s.randomOps1(rng, cfg)
+	}
+
+	// ---- first generation, liquidated borrows
+	cl := c10cfgL{dropTo: 1800000, T: 3600, buffer: "1.2", cusp: "0.7"}
+	sl := c10startL(t, fl, tr, cl)
+	if sl != nil {
+		sl.bidL("b1", sdk.NewInt(1000000))
+		sl.tickL(20 * time.Minute)
+		sl.bidL("b2", sdk.NewInt(2000000000))
+		if a, ok := sl.auctionL(); ok {
+			sl.bidL("b2", a.OutflowTokenCurrentAmount.Amount)
+		}
+	}
+	nL := scale(150, 6000)
+	for i := 0; i < nL; i++ {
+		cfg := c10cfgL{dropTo: []uint64{1860000, 1800000, 1700000, 1500000, 1200000, 900000, 400000}[rng.Intn(7)],
+			T: []uint64{10, 60, 600, 3600, 21600}[rng.Intn(5)], buffer: []string{"1.2", "1.05", "1.5", "1"}[rng.Intn(4)],
+			cusp: []string{"0.7", "0.5", "0.9", "0.3"}[rng.Intn(4)], sweep: rng.Chance(40), resFund: []int64{0, 1000, 500000000, 500000000}[rng.Intn(4)]}
+		s := c10startL(t, fl, tr, cfg)
+		if s == nil {
+			continue
+		}
+		s.randomOpsL(rng, cfg)
 	}
 
 	// ---- generated sequences
